@@ -228,6 +228,7 @@ type Env struct {
 	ExtentCap    int64 // after a shrink: max(previous extent, new limit); 0 = no promise active
 	OverflowUsed bool  // an overflow-enabled transaction ran since
 	LastOpLog    int   // disk log length before the most recent operation (set by the replayer)
+	Eager        bool  // let the background writer drain its queue after every operation (writer timing "eager")
 }
 
 // StatsObserver records what the library reports to an Observer.
